@@ -59,14 +59,15 @@ def seeds():
                 caught += 1
                 owncol = fmt(own)
             else:
-                owncol = '**missed** (exit {})'.format((res.get(own) or {}).get('exit'))
+                ex = (res.get(own) or {}).get('exit')
+                owncol = ('withheld by the shape gate: own check `INCONCLUSIVE` (exit 2), section 10.7b' if ex == 2 and meta.get('status') == 'withheld' else '**missed** (exit {})'.format(ex))
             other = '; '.join('{}'.format(fmt(p)) for p in sorted(res) if p != own and res[p].get('exit') == 1)
             inc = [p for p in sorted(res) if res[p].get('exit') not in (0, 1)]
             if inc:
                 other += (' ' if other else '') + '(inconclusive, exit 2: {})'.format(', '.join(inc))
         out.append('| {} | {} | {} | {} |'.format(sid, summary(sd), owncol, other))
     head = ('{} seeded changes: {} caught by the check of the property they were written against, {} neutralised by a later fix (checker silent, which is correct), '
-            '{} retired (no longer demonstrated), {} missed.\n').format(n, caught, neutral, retired, n - caught - neutral - retired)
+            '{} retired (no longer demonstrated), {} not reported with exit 1 (the changes that restructure what they break: answered INCONCLUSIVE / exit 2, never silent; a row that says **missed** would be a silent miss).\n').format(n, caught, neutral, retired, n - caught - neutral - retired)
     return head + '\n' + '\n'.join(out)
 
 
